@@ -13,6 +13,8 @@ var commands = map[string]func([]string){
 	"life":    cmdLife,
 	"c07":     cmdC07,
 	"cfgs":    cmdCfgs,
+	"c14gen":  cmdC14Gen,
+	"c14rand": cmdC14Rand,
 	"c07stress": cmdC07Stress,
 }
 
